@@ -73,12 +73,13 @@ class DiagGen:
         elif k == 'active':
             f.add('#ifndef NEVER_DEFINED_%d\nl%d = 1;\n#else\nhidden;\n#endif' % (u, u))
         elif k == 'include':
-            name = 'inc%d.hpp' % u
+            name = r.choice(['inc%d.hpp', 'inc%d.hpp', 'my inc %d.hpp', 'sub dir/inc%d.hpp']) % u
             inc = File(name)
             for _ in range(1 + r.below(4)):
                 self.block(inc, depth + 1, files, allow_include=True)
             files[name] = inc
-            f.add('#include "%s"' % r.choice([name, '\\' + name, '/' + name]))
+            # a bare name is taken relative to the including file: only for files that lie in the root directory themselves
+            f.add('#include "%s"' % (r.choice([name, '\\' + name, '/' + name]) if '/' not in f.name else r.choice(['\\' + name, '/' + name])))
         elif k == 'use':
             f.add('#define US%d(a) [a, a]\nm%d = US%d(%d);' % (u, u, u, u))
         elif k == 'mlstring':
@@ -100,17 +101,19 @@ class DiagGen:
         in_include = r.chance(1, 4)
         holder_line = None
         if in_include:
-            name = 'fault%d.hpp' % self.uid()
+            name = r.choice(['fault%d.hpp', 'fault%d.hpp', 'the fault %d.hpp', 'my lib/fault%d.hpp']) % self.uid()
             target = File(name)
             files[name] = target
             for _ in range(r.below(4)):
                 self.block(target, 1, files)
-        kind = r.weighted([('undefined', 5), ('runtime', 4), ('parse', 3), ('line', 4), ('trace', 3), ('mlarg', 3)])
+        kind = r.weighted([('undefined', 5), ('runtime', 4), ('parse', 3), ('line', 4), ('trace', 3), ('mlarg', 3), ('twice', 2), ('exitbeh', 3), ('ppwarn', 2)])
         indent = r.choice(['', ' ', '  ', '\t', '    ', '\t\t '])
         lead = r.choice(['', '', 'p = 1; ', 'q = [1,2]; r = 3; ', 'MLS', 't = "a""b"; ', "t = 'it''s'; ", 't = """" + "x"""; '])
         u = self.uid()
         line_no = len(target.lines) + 1
-        if lead == 'MLS' and kind in ('trace', 'mlarg'):
+        if lead == 'MLS' and kind in ('trace', 'mlarg', 'twice', 'exitbeh', 'ppwarn'):
+            lead = ''
+        if kind in ('exitbeh', 'ppwarn'):
             lead = ''
         if lead == 'MLS':
             # a string that runs over a line end in front of the fault: the fault stands on the line the string ends on
@@ -149,6 +152,70 @@ class DiagGen:
             else:
                 stmt = 'gl = [__LINE__\n, __LINE__\n];'
                 exp['gl'] = '[%d,%d]' % (line_no, line_no + 1)
+        elif kind == 'twice':
+            # a macro that uses its parameter twice, called with an argument that holds a line break; the fault stands
+            # behind the closing parenthesis on the line the call ends on (line and file demanded)
+            target.add('#define TWICE%d(x) x; x' % u)
+            line_no += 1
+            form = r.below(3)
+            self.note('twice-form:%d' % form)
+            if form == 0:
+                stmt, dl = 'TWICE%d(private _t%d =\n  1); z = FAULT_%d;' % (u, u, u), 1
+            elif form == 1:
+                stmt, dl = 'TWICE%d(_t%d = [1,\n 2,\n 3]); z = FAULT_%d;' % (u, u, u), 2
+            else:
+                stmt, dl = 'TWICE%d(_t%d =\n 1);\nz = FAULT_%d;' % (u, u, u), 2
+            exp['kind'] = 'undefined'
+            exp['positions'] = [(line_no + dl, None)]
+            exp['code'] = 60070
+            exp['nomodel'] = True
+            self.note('fault:twice')
+            kind = 'undefined'
+        elif kind == 'exitbeh':
+            # a type error that is not raised by an instruction but by the construct when a block has run to its end
+            # (a condition or predicate that yields no boolean): the culprit is the last statement of that block; the
+            # error and the innermost stack trace entry name it
+            form = r.below(4)
+            self.note('exitbeh-form:%d' % form)
+            i2 = indent + '   '
+            if form == 0:
+                stmt = '_e%d = 0;\n%swhile {\n%s_e%d = _e%d + 1;\n%s_e%d\n%s} do { };' % (u, indent, i2, u, u, i2, u, indent)
+                pos = (line_no + 3, len(i2))
+            elif form == 1:
+                stmt = '{\n%sprivate _y = _x + 1;\n%s"s"\n%s} count [1, 2, 3];' % (i2, i2, indent)
+                pos = (line_no + 2, len(i2))
+            elif form == 2:
+                stmt = '[1, 2, 3] select {\n%s_x;\n%s5\n%s};' % (i2, i2, indent)
+                pos = (line_no + 2, len(i2))
+            else:
+                stmt = '[1, 2] findIf {\n%sprivate _y = _x;\n%s[_y]\n%s};' % (i2, i2, indent)
+                pos = (line_no + 2, len(i2))
+            exp['kind'] = 'runtime'
+            exp['positions'] = [pos]
+            exp['code'] = 60068
+            exp['nomodel'] = True
+            self.note('fault:exitbeh')
+            kind = 'runtime'
+        elif kind == 'ppwarn':
+            # a diagnostic of the preprocessor itself: a macro defined a second time; it names the line of the second
+            # definition (single- and multi-line)
+            form = r.below(3)
+            self.note('ppwarn-form:%d' % form)
+            target.add('#define DUP%d 1' % u)
+            line_no += 1
+            if form == 0:
+                stmt = '#define DUP%d 2' % u
+            elif form == 1:
+                stmt = '#define DUP%d(a,b) a \\\n + b' % u
+            else:
+                stmt = '#define DUP%d' % u
+            exp['kind'] = 'ppwarn'
+            exp['positions'] = [(line_no, None)]
+            exp['code'] = 10005
+            exp['nomodel'] = True
+            indent = ''
+            self.note('fault:ppwarn')
+            kind = 'undefined'
         elif kind == 'mlarg':
             # an undefined variable inside the argument of a macro call that is broken across lines directly behind the
             # opening parenthesis or a comma: the token stands on a later line than the call begins on (line only: the
